@@ -22,7 +22,7 @@ DECLARED = {
     f'{BK}:make_readable_bulk': {'stdout', 'fs_write:output_path'},
     f'{REP}:generate_report': {'fs_write:output_path'},
     f'{CLI}:get_css_files': {'fs_read:*'},
-    f'{CLI}:update_decl_value': {'arg_mutate:decl'},
+    f'{CLI}:update_decl_value': {'arg_mutate:decl', 'arg_mutate:container'},      # the declaration's value and (since the F7 repair) the same tokens inside the rule that holds it
     f'{CLI}:resolve_variable': {'arg_mutate:visited'},
     f'{CLI}:process_nodes_recursive': {'arg_mutate:stats', 'arg_mutate:node_list', 'arg_mutate:variables', 'arg_mutate:*via update_decl_value', 'arg_mutate:*via resolve_variable',
                                        'arg_mutate:*via process_nodes_recursive', 'nondet:id()'},      # id(node) only keys the caller's declaration map
